@@ -174,6 +174,9 @@ def generate(seed: int, tier: str = "quick") -> dict:
     if interval == "1min" and R.sub(seed, "second_actuator").random() < 0.12:
         opts["second_actuator"] = True
         faults.append({"kind": "market_objects_reused_by_a_second_actuator"})
+    elif interval == "1min" and nb >= 2 and R.sub(seed, "reordered").random() < 0.06:
+        opts["reordered_rows"] = True
+        faults.append({"kind": "frames_not_in_chronological_order"})
     return {"property": ID, "seed": seed, "world": world, "program": program, "faults": faults, "opts": opts}
 
 
@@ -524,7 +527,19 @@ def _save_and_look_again(sim, how):
 def execute(scenario):
     if scenario.get("donor"):
         DN.prepare(scenario["donor"])
-    sim = Sim(scenario, LoopOracle(), trace=True, strategy_cls=TracedStrategy).run()
+    prebuilt = None
+    if scenario.get("opts", {}).get("reordered_rows"):
+        # the supplied market frames in an order of the caller's making (day files joined newest first): the run still
+        # visits the bars in increasing order of time
+        s0 = Sim(scenario, Oracle())  # built, not run: only to obtain frames in the loaders' format
+        prebuilt = {}
+        for name, df in s0.fed.items():
+            if name != "__prices__" and len(df) >= 2:
+                h = max(1, len(df) // 2)
+                prebuilt[name] = pd.concat([df.iloc[h:], df.iloc[:h]])
+    sim = Sim(scenario, LoopOracle(), trace=True, strategy_cls=TracedStrategy, prebuilt=prebuilt).run()
+    if prebuilt:
+        sim.count("fault:frames_not_in_chronological_order")
     if scenario.get("opts", {}).get("save_result") and sim.crash is None:
         _save_and_look_again(sim, scenario["opts"]["save_result"])
     if scenario.get("opts", {}).get("second_actuator") and sim.crash is None and not sim.violations:
